@@ -2,7 +2,7 @@ SPECIFICATION Spec
 CONSTANTS
   MaxOff = 36
   MemSizes = {0, 32, 96}
-  Kinds = {"copy", "big", "fork", "tfee"}
+  Kinds = {"copy", "big", "fork", "tfee", "tgas"}
   Forks = {"Berlin", "London", "Shanghai", "Cancun"}
 INVARIANTS MemMove Emit
 CHECK_DEADLOCK FALSE
